@@ -346,11 +346,20 @@ class Abs(Operator):
         if isinstance(a, ScalarValue):
             return as_ufl(abs(a._value))
 
-        return Operator.__new__(cls)
+        self = Operator.__new__(cls)
+        self._init(a)
+        return self
+
+    def _init(self, a):
+        """Constructor, called by __new__ with already checked arguments."""
+        self.ufl_operands = (a,)
 
     def __init__(self, a):
         """Initialise."""
-        Operator.__init__(self, (a,))
+        # Operands are set in __new__: when __new__ returns an existing
+        # Abs (abs(abs(x)) -> abs(x)), Python still calls __init__ on it
+        # and must not overwrite its operands.
+        Operator.__init__(self)
 
     def evaluate(self, x, mapping, component, index_values):
         """Evaluate."""
